@@ -86,10 +86,15 @@ def ordering_grammar(tier, prefix):
     # global child rule
     out.append([ORule("b"), ORule("a", [ORule("d")]), ORule("c", glob=True)])
     out.append([ORule("d", glob=True), ORule("a", [ORule("c")]), ORule("b")])
+    # %global rules must stay in force inside blocks whose own row no ordering rule mentions (no rule for "a")
+    out.append([ORule("d", glob=True), ORule("c", glob=True), ORule("b")])
+    out.append([ORule("c", glob=True), ORule("d", glob=True)])
+    out.append([ORule("b"), ORule("%s c" % prefix, order_reverse=True, glob=True), ORule("d", glob=True)])
     # specific rows
     out.append([ORule("b x"), ORule("a"), ORule("b y")])
     if tier == "quick":
-        out = out[::2] + out[1::8]
+        keep = out[-4:]
+        out = out[::2] + out[1::8] + [o for o in keep if o not in out[::2] and o not in out[1::8]]
     return out
 
 
@@ -167,7 +172,8 @@ def check_sorted(pt, orules, oglobals, prefix, probs, path=()):
     for (r1, c1), (r2, c2) in zip(ranked, ranked[1:]):
         if r1 > r2:
             probs.append(("rank-order", path, "%r (rank %s) is placed before %r (rank %s)" % (c1, r1, c2, r2),
-                          min(abs(r1), abs(r2))))
+                          "a removal matching the FIRST ordering rule through its negated form is not placed first"
+                          if r2 == -1 else "other"))
     return ranks
 
 
@@ -188,8 +194,9 @@ def judge_p(vendor, orules, old, new, report):
         return 0
     probs = []
     ranks = check_sorted(pt, [r for r in orules], [r for r in orules if r.glob], prefix, probs)
-    for kind, path, detail, lowest in probs[:2]:
-        report({"kind": kind, "part": "P", "involves_first_rule": lowest == 1}, case,
+    probs.sort(key=lambda p: p[3] != "other")      # report the unclassified ones first
+    for kind, path, detail, shape in probs[:2]:
+        report({"kind": kind, "part": "P", "shape": shape}, case,
                "ordering=%r at %r: %s | patch=%r" % (otxt, path, detail, flat_paths(pt)))
     a, b = sorted(flat_paths(pt)), base_paths
     if a != b:
